@@ -199,6 +199,11 @@ func (a *Analyzer) EnsureDecl(clauses []ast.Clause) error {
 	for _, c := range clauses {
 		pred := c.Head.Predicate
 		name := pred.Symbol
+		// Names that start with ':' belong to the built-in predicates; the engine decides such an
+		// atom with builtin.Decide whatever its arity is.
+		if pred.IsBuiltin() {
+			return fmt.Errorf("predicate name %v is reserved for built-in predicates, in %v", name, c)
+		}
 		// Check that the name was not defined previously (in a separate source).
 		// We may permit "distributing" definitions over source files later.
 		if decl, ok := a.extraPredicates[pred]; ok {
